@@ -547,9 +547,6 @@ func buildIntrinsics() map[string]intrinsic {
 	}
 
 	// --- misc natives used by initialisers ---
-	m["github.com/zmap/zlint/v3/lint.NewEmptyConfig"] = func(e *Exec, fn *ssa.Function, args []Value) Value {
-		return &StructV{F: []Value{&PtrV{O: e.newObj(&OpaqueV{N: "toml:empty"}, "toml:empty")}}}
-	}
 	m["runtime.SetFinalizer"] = nop
 	m["runtime.KeepAlive"] = nop
 	m["encoding/base32.NewEncoding"] = func(e *Exec, fn *ssa.Function, args []Value) Value {
@@ -578,6 +575,7 @@ func buildIntrinsics() map[string]intrinsic {
 		return e.ufCall("utf8.ValidString", []Value{e.bytesToStr(args[0].(*SliceV))}, types.Typ[types.Bool])
 	}
 	addBigIntrinsics(m)
+	addTomlIntrinsics(m)
 	addMoreIntrinsics(m)
 	return m
 }
@@ -908,9 +906,96 @@ func (e *Exec) sprintf(format Value, args *SliceV, what string) Value {
 			return cstr(fmt.Sprintf(f, native...))
 		}
 	}
+	if f, ok := concStr(format); ok && (what == "fmt.Sprintf" || what == "fmt.Errorf") {
+		if r := e.sprintfStructured(f, vals); r != nil {
+			e.stub("model:" + what + "(literal pieces concrete, one uninterpreted string per symbolic argument)")
+			r.Args = vals
+			return r
+		}
+	}
 	e.stub("uf:" + what)
 	r := e.ufCall("fmt", append([]Value{format}, vals...), types.Typ[types.String]).(*StrV)
 	return &StrV{T: r.T, Args: vals}
+}
+
+// sprintfStructured renders a format string piecewise: literal text stays
+// concrete, a verb whose argument is concrete is formatted natively, any other
+// verb becomes an uninterpreted string of (verb, argument).  nil when the
+// format uses features not handled (width from arguments, indexed arguments,
+// missing or extra operands).
+func (e *Exec) sprintfStructured(f string, vals []Value) *StrV {
+	var acc *StrV = cstr("")
+	add := func(p *StrV) { acc = e.strBinop(token.ADD, acc, p).(*StrV) }
+	ai := 0
+	for i := 0; i < len(f); {
+		j := strings.IndexByte(f[i:], '%')
+		if j < 0 {
+			add(cstr(f[i:]))
+			break
+		}
+		add(cstr(f[i : i+j]))
+		i += j
+		k := i + 1
+		for k < len(f) && strings.IndexByte("+-# 0123456789.", f[k]) >= 0 {
+			k++
+		}
+		if k >= len(f) {
+			return nil
+		}
+		verb := f[i : k+1]
+		if f[k] == '%' {
+			add(cstr("%"))
+			i = k + 1
+			continue
+		}
+		if f[k] == '*' || f[k] == '[' || ai >= len(vals) {
+			return nil
+		}
+		v := vals[ai]
+		ai++
+		if f[k] == 'T' {
+			if iv, ok := v.(*IfaceV); ok {
+				if iv.T == nil {
+					add(cstr("<nil>"))
+				} else {
+					add(cstr(goTypeString(iv.T)))
+				}
+				i = k + 1
+				continue
+			}
+			return nil
+		}
+		if nv, ok := e.toNative(v); ok {
+			add(cstr(fmt.Sprintf(verb, nv)))
+		} else if iv, ok := v.(*IfaceV); ok && iv.T != nil && (f[k] == 's' || f[k] == 'v') && verb == "%"+string(f[k]) {
+			switch x := iv.V.(type) {
+			case *StrV:
+				add(x)
+			default:
+				if types.Implements(iv.T, errorIface()) && iv.T.String() != "runtimeError" {
+					if fn := e.prog.LookupMethod(iv.T, nil, "Error"); fn != nil {
+						if r, ok := e.call(fn, []Value{iv.V}, nil).(*StrV); ok {
+							add(r)
+							break
+						}
+					}
+				}
+				add(e.ufCall("fmt", []Value{cstr(verb), v}, types.Typ[types.String]).(*StrV))
+			}
+		} else {
+			add(e.ufCall("fmt", []Value{cstr(verb), v}, types.Typ[types.String]).(*StrV))
+		}
+		i = k + 1
+	}
+	if ai != len(vals) {
+		return nil
+	}
+	return acc
+}
+
+// goTypeString renders a type the way fmt's %T does (package name, not path).
+func goTypeString(t types.Type) string {
+	return types.TypeString(t, func(p *types.Package) string { return p.Name() })
 }
 
 // toNative converts a fully concrete engine value to a Go value for fmt.
